@@ -256,7 +256,11 @@ Doc == LET o == DOCo
            minx == Pk(o, 5, <<0, 0, 0, 0, 0, 2, -3>>)  miny == Pk(o, 6, <<0, 0, 0, 0, 0, 0, 1, -2>>)
            m == Pk(o, 12, <<1, 1, 2, 3>>)
            skew == Yes(o, 13, 10, 0)        \* width/height ratio differs from the viewBox ratio
-       IN [unit |-> unit, w |-> vbw * m, h |-> IF skew THEN vbh * m + vbw ELSE vbh * m, hasvb |-> hasvb,
+           \* one of width / height may be a percentage or absent while the other is explicit ("x" explicit, "a" absent, else the text)
+           mixed == IF unit = "absent" \/ ~hasvb THEN 7 ELSE At(o, 18) % 20
+           wmode == CASE mixed = 0 -> "100%" [] mixed = 1 -> "50%" [] mixed = 4 -> "a" [] OTHER -> "x"
+           hmode == CASE mixed = 2 -> "100%" [] mixed = 3 -> "50%" [] mixed = 5 -> "a" [] OTHER -> "x"
+       IN [unit |-> unit, wmode |-> wmode, hmode |-> hmode, w |-> vbw * m, h |-> IF skew THEN vbh * m + vbw ELSE vbh * m, hasvb |-> hasvb,
            vb |-> <<minx, miny, vbw, vbh>>, rules |-> GenRules(es), es |-> es, ser |-> <<At(o, 14), At(o, 15), At(o, 16), At(o, 17)>>]
 
 \* ------------------------------------------------------------------------------------------------------
@@ -327,13 +331,20 @@ MM(unit, n) == CASE unit = "mm" -> <<n, 1>> [] unit \in {"px", ""} -> <<127 * n,
 PX(unit) == CASE unit = "mm" -> <<480, 127>> [] unit \in {"px", ""} -> <<1, 1>> [] unit = "cm" -> <<4800, 127>>
               [] unit = "in" -> <<96, 1>> [] unit = "pt" -> <<4, 3>> [] unit = "pc" -> <<16, 1>>
 \* viewport fractions of a user-space point u: fx = (kx * ux + ox) / dx, fy = (ky * uy + oy) / dy   (fy measured downwards)
+\* the viewport in a common integer unit. A side that is a percentage or absent while the other is explicit takes its size from the
+\* viewBox (user units = px): the convention of ParseSVG (parseViewBox: "width = viewbox[2] * 25.4 / 96" for an absent or percentage
+\* size); SVG leaves such a side to the embedding context, which a stand-alone document does not have.
+Explicit(mode) == mode = "x"
+ViewW(d) == IF Explicit(d.wmode) /\ Explicit(d.hmode) THEN d.w ELSE IF Explicit(d.wmode) THEN d.w * PX(d.unit)[1] ELSE d.vb[3] * PX(d.unit)[2]
+ViewH(d) == IF Explicit(d.wmode) /\ Explicit(d.hmode) THEN d.h ELSE IF Explicit(d.hmode) THEN d.h * PX(d.unit)[1] ELSE d.vb[4] * PX(d.unit)[2]
 VMap(d) ==
     IF d.hasvb THEN
         LET minx == d.vb[1] miny == d.vb[2] vbw == d.vb[3] vbh == d.vb[4]
-            P == d.w * vbh  Q == d.h * vbw IN
+            vw == ViewW(d) vh == ViewH(d)
+            P == vw * vbh  Q == vh * vbw IN
         IF d.unit = "absent" \/ P = Q THEN [kx |-> 1, ox |-> -minx, dx |-> vbw, ky |-> 1, oy |-> -miny, dy |-> vbh]
-        ELSE IF P < Q THEN [kx |-> 1, ox |-> -minx, dx |-> vbw, ky |-> 2 * d.w, oy |-> (Q - P) - 2 * d.w * miny, dy |-> 2 * Q]
-        ELSE [kx |-> 2 * d.h, ox |-> (P - Q) - 2 * d.h * minx, dx |-> 2 * P, ky |-> 1, oy |-> -miny, dy |-> vbh]
+        ELSE IF P < Q THEN [kx |-> 1, ox |-> -minx, dx |-> vbw, ky |-> 2 * vw, oy |-> (Q - P) - 2 * vw * miny, dy |-> 2 * Q]
+        ELSE [kx |-> 2 * vh, ox |-> (P - Q) - 2 * vh * minx, dx |-> 2 * P, ky |-> 1, oy |-> -miny, dy |-> vbh]
     ELSE LET px == PX(d.unit) IN [kx |-> px[2], ox |-> 0, dx |-> d.w * px[1], ky |-> px[2], oy |-> 0, dy |-> d.h * px[1]]
 \* sample (scaled by S, in the element's user space) -> viewport fractions, through the element's CTM
 SMap(d, m) == LET v == VMap(d) IN
@@ -563,7 +574,8 @@ CandVals(rules, es, i, p) == ({Initial(p)} \cup {AttrVal(es[j], p) : j \in Chain
                               \cup {LastDecl(rules[k].d, p, Len(rules[k].d)) : k \in 1..Len(rules)}) \ {""}
 StrokeProps == {"stroke", "stroke-width", "stroke-linejoin", "stroke-miterlimit", "stroke-linecap"}
 DocFeat(d) == (IF d.hasvb /\ (d.vb[1] # 0 \/ d.vb[2] # 0) THEN {"vb-origin"} ELSE {})
-              \cup (IF d.hasvb /\ d.unit # "absent" /\ d.w * d.vb[4] # d.h * d.vb[3] THEN {"aspect"} ELSE {})
+              \cup (IF d.hasvb /\ d.unit # "absent" /\ ViewW(d) * d.vb[4] # ViewH(d) * d.vb[3] THEN {"aspect"} ELSE {})
+              \cup (IF Explicit(d.wmode) # Explicit(d.hmode) THEN {"size-mixed"} ELSE {})
               \cup (IF ~d.hasvb THEN {"no-viewbox"} ELSE {}) \cup {"unit:" \o d.unit}
 
 \* geometric features of an outline: two consecutive line segments that fold back onto each other (canvas' path builder merges those: C10)
@@ -582,7 +594,8 @@ ElemEvents(d, i) ==
                       cap |-> CandVals(d.rules, es, i, "stroke-linecap")])>> ELSE <<>>)
 RECURSIVE DocEvents(_, _)
 DocEvents(d, i) == IF i > Len(d.es) THEN <<>> ELSE (IF IsShape(d.es[i]) THEN ElemEvents(d, i) ELSE <<>>) \o DocEvents(d, i + 1)
-DocSize(d) == LET w == MM(d.unit, d.w) h == MM(d.unit, d.h) IN <<w[1], w[2], h[1], h[2]>>
+DocSize(d) == LET w == IF Explicit(d.wmode) THEN MM(d.unit, d.w) ELSE MM("px", d.vb[3])
+                  h == IF Explicit(d.hmode) THEN MM(d.unit, d.h) ELSE MM("px", d.vb[4]) IN <<w[1], w[2], h[1], h[2]>>
 AllHaz(d) == UNION {Haz(d.rules, d.es, i, {"fill"} \cup StrokeProps) : i \in {j \in 1..Len(d.es) : IsShape(d.es[j])}}
 \* every shape element with the order-sensitivity features of all its paint properties and, when it has no fill paint, the cells of
 \* its outline (fp): the driver pairs recorded layers with elements by geometry, independently of how they are painted
